@@ -117,6 +117,15 @@ def run_C03(em, impl, tabs, rng, thorough):
         if m is None:
             continue
         base = gen.public_attrs(m)
+        # the Coq spec encoder on the same raw field values: same payload bits, same attributes as the implementation decodes
+        fl = []
+        expb = b"\x00" + vlib.ser_bytes(b.payload_zero) + vlib.ser_n(2, 0) + vlib.ser_attrs(base, fl)
+        vals = "[" + ";".join("%d%%N" % f[5] for f in b.fields) + "]"
+        em.add("obs_encoder T 1%%Z (unpack %s) %s" % (vlib.blob(b.ident.encode()), vals), expb, fl,
+               "spec encoder on the raw field values of a %s message" % b.ident,
+               {"identity": b.ident, "raw_values": [f[5] for f in b.fields][:200], "payload": b.payload_zero.hex()}, {"attrs": "as decoded by the implementation"},
+               size=len(b.payload))
+        em.count("encoder_cases")
         # trailing bytes change nothing
         em.direct_evaluations += 1
         extra = bytes(rng.getrandbits(8) for _ in range(rng.randrange(1, 6)))
